@@ -91,7 +91,9 @@ impl Prop for C13Prop {
                 return None;
             }
             if !out.starts_with("M:ok_") {
-                return Some(false);
+                // a program that fails for a reason of its own (shrinking produces such programs):
+                // no verdict from the relation, model and code are still compared
+                return None;
             }
             let emit = out.split("_EMIT_").nth(1).unwrap_or("");
             let entries: Vec<&str> = if emit.is_empty() { vec![] } else { emit.split(';').collect() };
